@@ -55,6 +55,8 @@ def canon(e: ast.AST, env: dict) -> object:
             return ("pi",)
         if d == "np.newaxis":
             return ("const", None)
+        if e.attr in ("real", "imag") and not isinstance(e.value, ast.Name):
+            return (e.attr, canon(e.value, env))  # x.real ≡ real(x)
         return ("attr", d)
     if isinstance(e, ast.UnaryOp) and isinstance(e.op, ast.USub):
         inner = canon(e.operand, env)
